@@ -113,10 +113,10 @@ func writeRefPart(path string, part map[int]refEntry, slice, of int, reverse boo
 }
 
 type refConflict struct {
-	idx                int
-	a, b               uint64
+	idx                      int
+	a, b                     uint64
 	sliceA, ofA, sliceB, ofB int
-	revA, revB         bool
+	revA, revB               bool
 }
 
 // loadRefs merges part files; conflicting entries are returned.
